@@ -556,6 +556,14 @@ func genOciArch(l *leanFile) {
 			}
 			last := fd.Body.List[len(fd.Body.List)-1]
 			l.defStr("parseArchDefault", f.src(last))
+			// what stands between the switch and the final return (C18 F18f: a name that is not one plain path element is escaped)
+			var mid []string
+			for _, st := range fd.Body.List[:len(fd.Body.List)-1] {
+				if st != ast.Stmt(sw) {
+					mid = append(mid, f.src(st))
+				}
+			}
+			l.defStrList("parseArchMiddle", mid)
 		}
 		l.defStrStrList("parseArchTable", kv)
 	}
